@@ -168,8 +168,11 @@ func l3(k int) {
 		slot := vsym.Uint64("slot" + tag)
 		vsym.FindingClass("F1-slot-ge-2^63", slot >= 1<<63)
 		name, pk := "W/a", []byte(nil)
-		if vsym.Choose("bykey"+tag, 2) == 1 {
+		switch vsym.Choose("bykey"+tag, 3) {
+		case 1:
 			name, pk = "", hc.KeyA[:]
+		case 2: // a longer byte string that still resolves to the account (only the first 48 bytes are looked at)
+			name, pk = "", append(append([]byte(nil), hc.KeyA[:]...), 0x00)
 		}
 		res, sig := in.Signer.SignBeaconProposal(ctx, hc.Creds(), name, pk, propData(tag, slot))
 		vsym.Out("res"+tag, int(res))
